@@ -279,6 +279,13 @@ def constant_applications():
         yield ("BVOne(%d)" % w, lambda m, w=w: m.BVOne(w), (BV(w), 1))
     yield ("BV(1) without width", lambda m: m.BV(1), None)
     # SMT-LIB: (_ BitVec m) with m > 0
+    for w in (2.5, 5.0):
+        # ... and m a numeral: a float width is no sort (also when the equal integer width exists already)
+        tag = str(w).replace(".", "_")
+        yield ("Symbol(BVType(%r))" % w, lambda m, w=w, tag=tag: m.Symbol("zf" + tag, m.env.type_manager.BVType(w)), None)
+        yield ("BV(1, %r)" % w, lambda m, w=w: m.BV(1, w), None)
+    yield ("Symbol(BVType(5.0)) after BVType(5)",
+           lambda m: (m.env.type_manager.BVType(5), m.Symbol("zg5_0", m.env.type_manager.BVType(5.0)))[1], None)
     for w in (0, -1):
         yield ("BV(0, %d)" % w, lambda m, w=w: m.BV(0, w), None)
         yield ("BVZero(%d)" % w, lambda m, w=w: m.BVZero(w), None)
